@@ -209,7 +209,7 @@ func (vc *FuncVC) callStatic(st *State, fn *ssa.Function, args []Val, binds []Va
 	if con != nil && !con.Inline {
 		vc.curBinds = binds
 		defer func() { vc.curBinds = nil }()
-		if vc.step != nil && st.step != nil && st.dry == nil && vc.touchesShared(con) {
+		if vc.step != nil && st.step != nil && st.dry == nil && (con.StepOp || vc.touchesShared(con)) {
 			// thread-modular mode: a contract call that may write shared state is one step
 			if st.step.touched {
 				vc.interfere(st)
